@@ -321,6 +321,14 @@ def run(ctx):
     if ucls:
         kw["classes"] = make_user_classes(ucls)
         ctx.probe("user-classes")
+    # two registered languages: files f<odd>.n belong to a second metamodel instance with its *own* tool-support flag
+    ctx.lang2 = None
+    if family in ("plainuri", "fqnuri") and t.chance(1, 4, "two-languages"):
+        flags = t.pick([(True, True), (False, True), (True, False)], "tools-flags") if (prop == "C34" or tools) else \
+            (False, t.chance(1, 2, "tools-second-language"))
+        tools = flags[0]
+        ctx.lang2 = {"tools": flags[1]}
+        ctx.probe("two-languages")
     mm = metamodel_from_str(grammar(), textx_tools_support=tools, memoization=memo, **kw)
     sigs = []
     samples = []
@@ -359,7 +367,7 @@ def episode(ctx, t, prop, family, tools, memo, mm, rep):
     inner = family in ("plainuri", "fqnuri") and t.chance(1, 3, "scripted-provider-inside-importuri")
     w = gen_world(t, root, nfiles=nfiles, qualified=family in QUALIFIED, max_refs=16,
                   alt_multipart=family == "rrel",  # FQN splits at '.', only RREL honours the match rule's split
-                  shadows=inner)
+                  shadows=inner, second_ext=".n" if ctx.lang2 else None)
     if inner:
         ctx.probe("scripted-provider-inside-importuri")
         if w.shadow_defs:
@@ -403,7 +411,20 @@ def episode(ctx, t, prop, family, tools, memo, mm, rep):
                                 **({"global_repository": True} if family == "plaingr" else {}),
                                 **({"classes": make_user_classes(ctx.ucls)} if ctx.ucls else {}))
         m2.register_scope_providers({"*.*": make_provider(family, root, scheduler, ctx, inner)})
+        second_language(scheduler, m2)
         return m2
+
+    def second_language(scheduler, first_mm):
+        """(re-)register both languages: *.m files belong to `first_mm` wherever they are imported from, *.n files to
+        a fresh metamodel of their own"""
+        if not ctx.lang2:
+            return
+        mn = metamodel_from_str(grammar(), textx_tools_support=ctx.lang2["tools"], memoization=memo,
+                                **({"classes": make_user_classes(ctx.ucls)} if ctx.ucls else {}))
+        mn.register_scope_providers({"*.*": make_provider(family, root, scheduler, ctx, inner)})
+        textx.clear_language_registrations()
+        textx.register_language("lang-m", pattern="*.m", metamodel=first_mm)
+        textx.register_language("lang-n", pattern="*.n", metamodel=mn)
 
     def load(the_mm, scheduler):
         scheduler.anon_file = w.main if anon else None
@@ -413,6 +434,7 @@ def episode(ctx, t, prop, family, tools, memo, mm, rep):
 
     # the same metamodel serves every load of the run; only the provider (and its schedule) is re-registered
     mm.register_scope_providers({"*.*": make_provider(family, root, sched, ctx, inner)})
+    second_language(sched, mm)
     fx = fixpoint(refs) if mode != "rounds" else {r.key for r in refs}
     expect_ok = len(fx) == N
     ctx.ev("world", family, mode, N, expect_ok)
@@ -529,8 +551,12 @@ def episode(ctx, t, prop, family, tools, memo, mm, rep):
                         f"eager schedule fails: {e!r}")
     elif prop == "C08":
         ctx.nontrivial = sched.order_at_risk > 0
-    if prop == "C34" or tools:
-        check_tools(ctx, w, models, closure, family, sched, w.main if anon else None)
+    if prop == "C34" or tools or (ctx.lang2 and ctx.lang2["tools"]):
+        # each model is judged by the flag of its own language
+        with_tools = [f for f in closure if (ctx.lang2["tools"] if (ctx.lang2 and f.endswith(".n")) else tools)]
+        if ctx.lang2 and ctx.lang2["tools"] != tools and any(f.endswith(".n") for f in closure):
+            ctx.probe("languages-with-different-tool-support-flags")
+        check_tools(ctx, w, models, with_tools, family, sched, w.main if anon else None)
     return True
 
 
